@@ -29,7 +29,7 @@ SPEC = dict(
              dist_keys=_DIST, nontrivial=_nontrivial, timeout=1500),
         # Sway stream: `const X: T = __op(A, B)` through the real compiler (const_eval.rs), value read back by
         # running the script; ~50 ms per case
-        dict(bin="sv_c06", area="c06", label="sway", n_quick=3000, n_thorough=40000, corpus="corpus/c06.txt",
+        dict(bin="sv_c06", area="c06", label="sway", n_quick=1500, n_thorough=12000, corpus="corpus/c06.txt",
              args=["--sway"], dist_keys=_DIST, nontrivial=_nontrivial, timeout=1500),
     ],
     rule="every operator (add sub mul div mod and or xor lsh rsh not eq lt gt) x every width (u8 u16 u32 u64 u256 "
